@@ -567,7 +567,7 @@ Section Round.
   Definition hv_l (o : opts) : list text := match header_value o with Some ((_ :: _) as hv) => [hv] | _ => [] end.
 
   Lemma header_line_join c o : x_sids c <> [] ->
-    header_line c o = join TAB ((OCN :: x_sids c) ++ hv_l o).
+    header_line c o = join TAB ((ocn o :: x_sids c) ++ hv_l o).
   Proof.
     intros H. unfold header_line, hv_l. destruct (header_value o) as [[|h hs]|].
     - rewrite app_nil_r, join_cons by exact H. reflexivity.
@@ -578,35 +578,52 @@ Section Round.
   Lemma OCN_notab : ~ In TAB OCN.
   Proof. intros H. vm_compute in H. repeat (destruct H as [H|H]; [discriminate|]). exact H. Qed.
 
-  (* what the header loop finds in the written lines: the columns of the "#OTU ID" line, and
-     the data start right behind it *)
-  Lemma find_header_written cols hl r0 rest :
-    row_ok r0 -> cols <> [] -> Forall (fun p => ~ In TAB p) cols ->
+  Lemma blank_last_nospace t : t <> [] -> is_space (last t 0) = false -> blank t = false.
+  Proof.
+    intros Hne Hl. destruct (snoc_exists t Hne) as [l [c E]]. subst t. rewrite last_snoc in Hl.
+    unfold blank, strip.
+    assert (Hk : exists y, lstrip (l ++ [c]) = y ++ [c]).
+    { clear Hne. induction l as [|a l IH]; simpl; [rewrite Hl; exists []; reflexivity|].
+      destruct (is_space a); [exact IH|exists (a :: l); reflexivity]. }
+    destruct Hk as [y Ey]. rewrite Ey, rstrip_snoc_nospace by exact Hl. destruct y; reflexivity.
+  Qed.
+
+  (* what the header loop finds in the written lines: the columns behind the corner cell oc of
+     the header line, and the data start right behind it - whether the corner cell starts with
+     '#' (the default "#OTU ID") or not ('', ' ', "Taxon": the header is then the first line that
+     does not start with '#') *)
+  Lemma find_header_written oc cols hl r0 rest :
+    row_ok r0 -> ~ In TAB oc -> cols <> [] -> Forall (fun p => ~ In TAB p) cols ->
     is_space (last (last cols []) 0) = false -> last cols [] <> [] ->
-    hl = join TAB (OCN :: cols) ->
+    hl = join TAB (oc :: cols) ->
     find_header (CONSTRUCTED :: hl :: line_of r0 :: rest) None 0 = (Some cols, 2%nat).
   Proof.
-    intros Hr Hne Hnt Hlast Hlne Ehl.
+    intros Hr Hoc Hne Hnt Hlast Hlne Ehl.
     cbn [find_header].
     replace (blank CONSTRUCTED) with false by (vm_compute; reflexivity).
     replace (starts_hash CONSTRUCTED) with true by (vm_compute; reflexivity).
     replace (tl (split_on TAB (strip CONSTRUCTED))) with (@nil text) by (vm_compute; reflexivity).
     cbn [negb].
-    assert (Ehd : exists t, hl = 35 :: t).
-    { rewrite Ehl. simpl. eexists. reflexivity. }
-    destruct Ehd as [t Et].
-    assert (Hb : blank hl = false) by (rewrite Et; apply blank_cons_nospace; reflexivity).
-    assert (Hh : starts_hash hl = true) by (rewrite Et; reflexivity).
-    assert (Hs : strip hl = hl).
-    { apply strip_edges; [rewrite Et; discriminate|]. split; [rewrite Et; reflexivity|].
-      rewrite Ehl. destruct (snoc_exists cols Hne) as [cs [x Ex]]. subst cols.
+    assert (Hlast_hl : is_space (last hl 0) = false).
+    { rewrite Ehl. destruct (snoc_exists cols Hne) as [cs [x Ex]]. subst cols.
       rewrite last_snoc in Hlast, Hlne. rewrite app_comm_cons. rewrite last_join_snoc by exact Hlne. exact Hlast. }
-    rewrite Hb, Hh, Hs. cbn [negb].
-    assert (Hsp : split_on TAB hl = OCN :: cols).
-    { rewrite Ehl. apply split_on_join; [constructor; [exact OCN_notab|exact Hnt]|discriminate]. }
-    rewrite Hsp. cbn [tl].
-    destruct (row_read r0 Hr) as (Hb0 & Hh0 & _). rewrite Hb0, Hh0. cbn [negb].
-    destruct cols; [congruence|]. reflexivity.
+    assert (Hhl_ne : hl <> []).
+    { rewrite Ehl. rewrite join_cons by exact Hne. intros E. apply app_eq_nil in E. destruct E as [_ E]. discriminate. }
+    assert (Hb : blank hl = false) by (apply blank_last_nospace; assumption).
+    assert (Hsp : split_on TAB hl = oc :: cols).
+    { rewrite Ehl. apply split_on_join; [constructor; [exact Hoc|exact Hnt]|discriminate]. }
+    rewrite Hb. destruct (starts_hash hl) eqn:Hh; cbn [negb].
+    - assert (Hs : strip hl = hl).
+      { apply strip_edges; [exact Hhl_ne|]. split; [|exact Hlast_hl].
+        destruct hl as [|c0 t]; [discriminate|]. simpl in Hh. apply Z.eqb_eq in Hh. subst c0. reflexivity. }
+      rewrite Hs, Hsp. cbn [tl].
+      destruct (row_read r0 Hr) as (Hb0 & Hh0 & _). rewrite Hb0, Hh0. cbn [negb].
+      destruct cols; [congruence|]. reflexivity.
+    - cbn [truthy].
+      assert (Hrs : rstrip hl = hl).
+      { destruct (snoc_exists hl Hhl_ne) as [l [c E]]. rewrite E in *. rewrite last_snoc in Hlast_hl.
+        apply rstrip_snoc_nospace. exact Hlast_hl. }
+      rewrite Hrs, Hsp. reflexivity.
   Qed.
 
   (* ---------------- the table-level hypotheses ---------------- *)
@@ -648,24 +665,24 @@ Section Round.
   Qed.
 
   (* ---------------- what the reader makes of written lines ---------------- *)
-  Lemma extract_written l cols numeric :
-    Forall row_ok l -> l <> [] ->
+  Lemma extract_written oc l cols numeric :
+    Forall row_ok l -> l <> [] -> ~ In TAB oc ->
     cols <> [] -> Forall (fun p => ~ In TAB p) cols ->
     is_space (last (last cols []) 0) = false -> last cols [] <> [] ->
     Forall (fun r => is_some (snd (snd r)) = negb numeric) l ->
     forallb (fun r => isfloat parse_num (lastf r)) l = numeric ->
-    extract_tsv parse_num (CONSTRUCTED :: join TAB (OCN :: cols) :: map line_of l)
+    extract_tsv parse_num (CONSTRUCTED :: join TAB (oc :: cols) :: map line_of l)
     = ROk (mkE (if numeric then cols else removelast cols)
                (map (fun r : rowrec => fst r) l)
                (all_triples 0 (map (fun r : rowrec => fst (snd r)) l))
                (if numeric then None else Some (map lastf l))
                (if numeric then None else Some (last cols []))).
   Proof.
-    intros Hrows Hl Hc1 Hc2 Hc3 Hc4 Hcells Hnum.
+    intros Hrows Hl Hoc Hc1 Hc2 Hc3 Hc4 Hcells Hnum.
     destruct l as [|r0 l']; [congruence|].
     pose proof (Forall_inv Hrows) as Hr0.
     unfold extract_tsv. cbn [map].
-    rewrite (find_header_written cols _ r0 (map line_of l') Hr0 Hc1 Hc2 Hc3 Hc4 eq_refl).
+    rewrite (find_header_written oc cols _ r0 (map line_of l') Hr0 Hoc Hc1 Hc2 Hc3 Hc4 eq_refl).
     cbn [skipn].
     change (line_of r0 :: map line_of l') with (map line_of (r0 :: l')).
     rewrite (last_numeric_lines _ Hrows), Hnum.
@@ -707,12 +724,13 @@ Section Round.
   Qed.
 
   (* ---------------- round trip without a metadata column ---------------- *)
-  Theorem roundtrip_plain c keep :
+  Theorem roundtrip_plain_oc oc c keep :
+    ~ In TAB oc -> avoids brk oc ->
     xwf c -> x_empty c = false -> ids_tsv_safe c -> faithful_on c ->
-    roundtrip fmt parse_num format process brk keep c no_opts
+    roundtrip fmt parse_num format process brk keep c (mkO3 None None oc)
     = ROk (mkX (x_oids c) (x_sids c) (x_mat c) None).
   Proof.
-    intros W Hne Hids Hf.
+    intros Hoc1 Hoc2 W Hne Hids Hf. set (no_opts := mkO3 None None oc).
     assert (Ho : x_oids c <> []) by (unfold x_empty in Hne; destruct (x_oids c); [discriminate|discriminate]).
     assert (Hs : x_sids c <> []) by (unfold x_empty in Hne; destruct (x_oids c), (x_sids c); try discriminate).
     unfold roundtrip, to_tsv_text, to_tsv. rewrite Hne. simpl header_key. simpl header_value. cbn [is_some andb negb].
@@ -727,18 +745,18 @@ Section Round.
     destruct (combine3_proj (x_oids c) (x_mat c) cells W1 Lc) as (P1 & P2 & P3). fold l in P1, P2, P3.
     assert (Hl : l <> []).
     { intros E. rewrite E in P1. simpl in P1. congruence. }
-    assert (Hhl : header_line c no_opts = join TAB (OCN :: x_sids c)).
+    assert (Hhl : header_line c no_opts = join TAB (oc :: x_sids c)).
     { rewrite header_line_join by exact Hs. simpl hv_l. rewrite app_nil_r. reflexivity. }
     destruct (sids_cols c Hs (proj2 Hids)) as (Hs1 & Hs2 & Hs3 & Hs4).
     assert (Hhav : avoids brk (header_line c no_opts)).
-    { rewrite Hhl. apply avoids_join; [apply GB|]. constructor; [apply GB|exact Hs4]. }
+    { rewrite Hhl. apply avoids_join; [apply GB|]. constructor; [exact Hoc2|exact Hs4]. }
     rewrite feed_written; [|discriminate|constructor; [apply GB|constructor; [exact Hhav|apply lines_avoid; exact Hrows]]].
     assert (Hcn : forall r, In r l -> snd (snd r) = None).
     { intros r Hin.
       assert (H : In (snd (snd r)) (map (fun r : rowrec => snd (snd r)) l)) by (apply (in_map (fun r : rowrec => snd (snd r))); exact Hin).
       rewrite P3, Ecells in H. apply in_map_iff in H. destruct H as [? [E _]]. congruence. }
     unfold from_tsv. rewrite Hhl.
-    rewrite (extract_written l (x_sids c) true Hrows Hl Hs Hs3 Hs1 Hs2).
+    rewrite (extract_written oc l (x_sids c) true Hrows Hl Hoc1 Hs Hs3 Hs1 Hs2).
     - cbn [e_md e_oids e_sids e_data e_name]. rewrite P1, P2.
       apply (construct_written (x_oids c) (x_sids c) (x_mat c) None None W1 W2 W3 W4).
     - apply Forall_forall. intros r Hin. rewrite (Hcn r Hin). reflexivity.
@@ -748,25 +766,32 @@ Section Round.
       unfold isfloat. rewrite Hp. reflexivity.
   Qed.
 
+  Theorem roundtrip_plain c keep :
+    xwf c -> x_empty c = false -> ids_tsv_safe c -> faithful_on c ->
+    roundtrip fmt parse_num format process brk keep c no_opts
+    = ROk (mkX (x_oids c) (x_sids c) (x_mat c) None).
+  Proof. apply roundtrip_plain_oc; [exact OCN_notab|apply GB]. Qed.
+
   (* ---------------- round trip with one observation-metadata category ---------------- *)
   (* the formatted texts of the exported category, in observation order *)
   Definition md_texts (key : text) (c : ttab) : list text :=
     match x_omd c with Some es => map (fun e => format (md_get key e)) es | None => [] end.
 
-  Theorem roundtrip_md c keep key hv es :
+  Theorem roundtrip_md_oc oc c keep key hv es :
+    ~ In TAB oc -> avoids brk oc ->
     xwf c -> x_empty c = false -> ids_tsv_safe c -> faithful_on c ->
     key <> [] -> hv <> [] -> txt_ok hv -> is_space (last hv 0) = false ->
     x_omd c = Some es ->
     Forall txt_ok (md_texts key c) ->
     Exists (fun m => isfloat parse_num (strip m) = false) (md_texts key c) ->
-    roundtrip fmt parse_num format process brk keep c (mkO (Some key) (Some hv))
+    roundtrip fmt parse_num format process brk keep c (mkO3 (Some key) (Some hv) oc)
     = ROk (mkX (x_oids c) (x_sids c) (x_mat c)
                (Some (map (fun m => [(hv, process (strip m))]) (md_texts key c)))).
   Proof.
-    intros W Hne Hids Hf Hkey Hhv Hhvok Hhvl Homd Hms Hex.
+    intros Hoc1 Hoc2 W Hne Hids Hf Hkey Hhv Hhvok Hhvl Homd Hms Hex.
     assert (Ho : x_oids c <> []) by (unfold x_empty in Hne; destruct (x_oids c); [discriminate|discriminate]).
     assert (Hs : x_sids c <> []) by (unfold x_empty in Hne; destruct (x_oids c), (x_sids c); try discriminate).
-    set (o := mkO (Some key) (Some hv)).
+    set (o := mkO3 (Some key) (Some hv) oc).
     unfold roundtrip, to_tsv_text, to_tsv. rewrite Hne. simpl header_key. simpl header_value. cbn [is_some andb negb].
     set (ms := md_texts key c) in *.
     assert (Ems : ms = map (fun e => format (md_get key e)) es) by (unfold ms, md_texts; rewrite Homd; reflexivity).
@@ -785,12 +810,12 @@ Section Round.
     destruct (combine3_proj (x_oids c) (x_mat c) cells W1 Lc) as (P1 & P2 & P3). fold l in P1, P2, P3.
     assert (Hl : l <> []).
     { intros E. rewrite E in P1. simpl in P1. congruence. }
-    assert (Hhl : header_line c o = join TAB (OCN :: (x_sids c ++ [hv]))).
+    assert (Hhl : header_line c o = join TAB (oc :: (x_sids c ++ [hv]))).
     { rewrite header_line_join by exact Hs. unfold hv_l, o. simpl header_value. destruct hv as [|h0 hs]; [congruence|].
       rewrite app_comm_cons. reflexivity. }
     destruct (sids_cols c Hs (proj2 Hids)) as (Hs1 & Hs2 & Hs3 & Hs4).
     assert (Hhav : avoids brk (header_line c o)).
-    { rewrite Hhl. apply avoids_join; [apply GB|]. constructor; [apply GB|].
+    { rewrite Hhl. apply avoids_join; [apply GB|]. constructor; [exact Hoc2|].
       apply Forall_app. split; [exact Hs4|constructor; [apply Hhvok|constructor]]. }
     rewrite feed_written; [|discriminate|constructor; [apply GB|constructor; [exact Hhav|apply lines_avoid; exact Hrows]]].
     assert (Hlast : map lastf l = map strip ms).
@@ -801,7 +826,7 @@ Section Round.
         rewrite P3, Ecells in H. apply in_map_iff in H. destruct H as [m [E _]]. unfold lastf. rewrite <- E. reflexivity. }
       rewrite E, P3, Ecells, map_map. reflexivity. }
     unfold from_tsv. rewrite Hhl.
-    rewrite (extract_written l (x_sids c ++ [hv]) false Hrows Hl).
+    rewrite (extract_written oc l (x_sids c ++ [hv]) false Hrows Hl Hoc1).
     - cbn [e_md e_oids e_sids e_data e_name]. rewrite P1, P2, removelast_snoc, last_snoc, Hlast.
       assert (Hmne : ms <> []).
       { intros E. rewrite Ems in E. apply map_eq_nil in E. rewrite E in W5. simpl in W5. destruct (x_oids c); [congruence|discriminate]. }
@@ -822,6 +847,17 @@ Section Round.
       { clear. induction ms as [|m ms IH]; simpl; [reflexivity|]. rewrite IH. reflexivity. }
       rewrite E2. apply forallb_false_Exists. exact Hex.
   Qed.
+
+  Theorem roundtrip_md c keep key hv es :
+    xwf c -> x_empty c = false -> ids_tsv_safe c -> faithful_on c ->
+    key <> [] -> hv <> [] -> txt_ok hv -> is_space (last hv 0) = false ->
+    x_omd c = Some es ->
+    Forall txt_ok (md_texts key c) ->
+    Exists (fun m => isfloat parse_num (strip m) = false) (md_texts key c) ->
+    roundtrip fmt parse_num format process brk keep c (mkO (Some key) (Some hv))
+    = ROk (mkX (x_oids c) (x_sids c) (x_mat c)
+               (Some (map (fun m => [(hv, process (strip m))]) (md_texts key c)))).
+  Proof. apply roundtrip_md_oc; [exact OCN_notab|apply GB]. Qed.
 
   (* when the processing function inverts the formatter the category itself comes back *)
   Corollary roundtrip_md_inverse c keep key hv es :
@@ -1183,3 +1219,25 @@ Proof.
   split; [apply ids_tsv_safeb_ok; vm_compute; reflexivity|].
   split; [apply faithful_onb_ok; vm_compute; reflexivity|]. exact TsvExamples.numeric_md_becomes_sample.
 Qed.
+
+(* ------------------------------------------------------------------ further witnesses *)
+Module TsvExamples2.
+  Import TsvExamples.
+  (* an empty corner cell (as R / pandas write it), a blank one, and "Taxon": the header line then
+     does not start with '#' *)
+  Lemma corner_cells_run :
+    roundtrip fmt parse fmt_naive proc_naive brk_univ true c32 (mkO3 None None []) = ROk c32
+    /\ roundtrip fmt parse fmt_naive proc_naive brk_nl false c32 (mkO3 None None [32]) = ROk c32
+    /\ roundtrip fmt parse fmt_naive proc_naive brk_univ false c21 (mkO3 None None [84;97;120;111;110]) = ROk c21.
+  Proof. vm_compute. repeat split. Qed.
+  (* taxonomy with an empty level in the middle, at the end and at the start *)
+  Definition k_C : text := [99;95;95;67].
+  Definition c32tax : ttab :=
+    mkX [[111;49]; [111;50]; [111;51]] [[115;49]] [[1]; [0]; [3]]
+        (Some [[(k_tax, tList [tStr k_A; tStr []; tStr k_C])];
+               [(k_tax, tList [tStr k_A; tStr p_B; tStr []])];
+               [(k_tax, tList [tStr []; tStr k_A])]]).
+  Lemma empty_levels_run :
+    roundtrip fmt parse fmt_sc proc_sc brk_univ true c32tax (mkO (Some k_tax) (Some k_tax)) = ROk c32tax.
+  Proof. vm_compute. reflexivity. Qed.
+End TsvExamples2.
